@@ -182,7 +182,7 @@ class State:
         self.frames, self.pc, self.world, self.outcome = [], [], None, None
         self.trace = []          # names of crate functions entered (for evidence)
 
-    def fork(self):
+    def fork(self, keep_memo=False):
         memo = {}
         s = State()
         s.frames = clone(self.frames, memo)
@@ -190,7 +190,9 @@ class State:
         s.world = clone(self.world, memo) if self.world is not None else None
         s.outcome = self.outcome
         s.trace = self.trace       # shared, append-only set semantics not needed per path
-        s.fork_memo = memo         # original object id -> its copy: lets a value computed before the fork be re-bound to the copy's objects
+        # original object id -> its copy: lets a value computed before the fork be re-bound to the copy's objects.  Only valid while the
+        # originals are alive, i.e. right after the fork: the caller that asked for it drops it again (a stale memo would map recycled ids)
+        s.fork_memo = memo if keep_memo else None
         return s
 
 
@@ -261,7 +263,8 @@ class TypeInfo:
         'RoundingStrategy': ['MidpointNearestEven', 'MidpointAwayFromZero', 'MidpointTowardZero', 'ToZero', 'AwayFromZero',
                              'ToNegativeInfinity', 'ToPositiveInfinity', 'BankersRounding', 'RoundHalfUp', 'RoundHalfDown', 'RoundDown', 'RoundUp'],
         'BankMsg': ['Send', 'Burn'],
-        'Order': ['Ascending', 'Descending'],
+        'Order': ['Ascending', 'Descending'], 'Ordering': ['Less', 'Equal', 'Greater'],
+        'CosmosMsg': ['Bank', 'Custom', 'Staking', 'Distribution', 'Stargate', 'Any', 'Ibc', 'Wasm', 'Gov'],
         'StdError': ['VerificationErr', 'RecoverPubkeyErr', 'GenericErr', 'InvalidBase64', 'InvalidDataSize', 'InvalidHex', 'InvalidUtf8',
                      'NotFound', 'ParseErr', 'SerializeErr', 'Overflow', 'DivideByZero', 'ConversionOverflow'],
     }
@@ -427,6 +430,12 @@ class Engine:
                 sig = self.items[n][0].sig
                 if 'impl at' in n and re.search(r'_1: &?(mut )?(\w+::)*%s[,)]' % re.escape(short), sig):
                     return n
+            if trait.startswith('From<') and meth == 'from':
+                srcty = strip_generics(trait[5:-1]).split('::')[-1]
+                for n in self.by_last.get('from', []):
+                    sig = self.items[n][0].sig
+                    if re.search(r'_1: (\w+::)*%s\) -> (\w+::)*%s ' % (re.escape(srcty), re.escape(short)), sig):
+                        return n
             if trait.startswith('Into<'):
                 tgt = strip_generics(trait[5:-1]).split('::')[-1]
                 for n in self.by_last.get('from', []):
@@ -450,6 +459,10 @@ class Engine:
             hits = [n for n in cands if 'impl at' in n and 'closure' not in n and re.search(r'\b%s\b' % re.escape(ty), self.items[n][0].sig)]
             if len(hits) == 1:
                 return hits[0]
+            if not hits and (ty in self.ti.structs or ty in self.ti.enums) and ty not in TypeInfo.EXTERNAL_STRUCTS and ty not in TypeInfo.EXTERNAL_ENUMS:
+                allc = [n for n in cands if 'impl at' in n and 'closure' not in n]
+                if len(allc) == 1:
+                    return allc[0]
             return None
         return cands[0] if len(cands) == 1 and 'impl at' not in cands[0] else None
 
@@ -681,6 +694,9 @@ class Engine:
         for n, val in self.oneline_consts.items():
             if n == name or name.endswith('::' + n) or n.endswith('::' + name.rsplit('::', 1)[-1]):
                 return self.const(st, val)
+        mk = re.search(r'MarkerType::(\w+)::\{constant#0\}$', name)
+        if mk and mk.group(1) in ('Unspecified', 'Coin', 'Restricted'):
+            return z3.IntVal({'Unspecified': 0, 'Coin': 1, 'Restricted': 2}[mk.group(1)])      # prost enum discriminants of the marker module
         raise Unsupported('const ' + c)
 
     def run_const(self, st, name):
@@ -818,8 +834,14 @@ class Engine:
                         cs = callee if isinstance(callee, str) else '<indirect>'
                         st.outcome = ('panic', 'diverging:' + strip_generics(cs)[:80], fr.name)
                         continue
+                    cur = (fr.bb, fr.idx)
                     fr.bb, fr.idx = retbb, 0
-                    r = self.call(st, fr, callee, argv, destptr)
+                    try:
+                        r = self.call(st, fr, callee, argv, destptr, cur)
+                    except Unsupported as e_:
+                        if ' [in ' not in str(e_):
+                            raise Unsupported('%s [in %s %s]' % (e_, fr.name, cur[0]))
+                        raise
                     if r is PUSHED:
                         continue
                     outs = []
@@ -836,8 +858,9 @@ class Engine:
                     if not outs:
                         st.outcome = ('infeasible',)
                         continue
+                    st.fork_memo = None
                     for c, v, eff in outs[1:]:
-                        s2 = st.fork()
+                        s2 = st.fork(keep_memo=True)
                         if c is not True:
                             s2.pc.append(c)
                         if eff is not None:
@@ -882,7 +905,7 @@ class Engine:
             v = self.read(cell, path)
             if isinstance(v, Adt) and v.variant is not None:
                 return z3.IntVal(self.variant_index(v))
-            raise Unsupported('discriminant of %r' % (v,))
+            raise Unsupported('discriminant of %r in %s bb%s' % (v, fr.name, fr.bb))
         if k == 'adt':
             path, shape, fields = a
             vals = [self.operand(st, fr, f[1] if shape == 'struct' else f) for f in fields]
@@ -920,6 +943,11 @@ class Engine:
                 return z3.Not(v)
             if a[0] == 'Neg':
                 return -v
+            if a[0] == 'PtrMetadata':
+                tv = self.deref(v)
+                if isinstance(tv, list):
+                    return z3.IntVal(len(tv))          # metadata of a slice reference: its length
+                raise Unsupported('PtrMetadata of %r' % (type(tv).__name__,))
             raise Unsupported('unop ' + a[0])
         if k == 'len':
             cell, path = self.resolve(st, fr, a[0])
@@ -984,10 +1012,113 @@ class Engine:
             raise Unsupported('variant index of %s::%s' % (v.ty, v.variant))
 
     # ---- calls ----
-    def call(self, st, fr, callee, argv, destptr):
+    def find_from_impl(self, src, tgt):
+        """(name, body) of the crate's `impl From<src> for tgt` (several derived impls can share one `impl at` name), or None"""
+        src_last, tgt_last = strip_generics(src).split('::')[-1], strip_generics(tgt).split('::')[-1]
+        for n in self.by_last.get('from', []):
+            for bdy in self.items[n]:
+                sm = re.search(r'\(_1: ([^)]*)\) -> ([\w:]+)', bdy.sig)
+                if not sm:
+                    continue
+                a_ty, r_ty = sm.group(1), sm.group(2)
+                if r_ty.split('::')[-1] != tgt_last or a_ty.split('::')[-1] != src_last:
+                    continue
+                if src_last == 'Error' and a_ty.split('::')[0] != src.split('::')[0]:
+                    continue
+                return n, bdy
+        return None
+
+    def from_call(self, name):
+        mf = re.match(r'^<(.+) as From<(.+)>>::from$', name)
+        if mf:
+            return self.find_from_impl(mf.group(2), mf.group(1))
+        mi = re.match(r'^<(.+) as Into<(.+)>>::into$', name)
+        if mi:
+            return self.find_from_impl(mi.group(1), mi.group(2))
+        return None
+
+    LOOP_CALLS = re.compile(r'^<.* as Iterator>::(try_for_each|for_each|fold|try_fold)$')
+
+    def loop_call(self, st, fr, kind, callee, argv, cur):
+        """`iter.for_each / try_for_each / fold / try_fold(closure)` with a crate closure: the closure runs as a real frame of THIS state, once
+        per item (its writes to storage and to captured variables, and its forks, are those of the path); the call statement is
+        re-entered after each closure return until the items are used up or the closure breaks out."""
+        from . import models as M
+        key = ('loop',) + cur
+        slot = fr.locals.get(key)
+        clo_text = self.closure_text(callee)
+        folding = kind in ('fold', 'try_fold')
+        if slot is None:
+            alts = M._iter_alts(self, st, self.deref(argv[0]))
+            acc0, clo0 = (argv[1] if folding else None), (argv[2] if folding else argv[1])
+            if len(alts) > 1:
+                # the adapter chain can turn out in several ways (forking closures): one path per way, each re-entering this call with its items
+                def mk(items_):
+                    def eff(st2):
+                        memo = getattr(st2, 'fork_memo', None)
+                        rb = (lambda v: clone(v, memo)) if memo else (lambda v: v)
+                        fr2 = st2.frames[-1]
+                        fr2.locals[key] = Cell({'items': [rb(x) for x in items_], 'i': 0, 'acc': rb(acc0), 'clo': rb(clo0), 'out': Cell(), 'fresh': True})
+                        fr2.bb, fr2.idx = cur
+                    return eff
+                return [(c_, unit(), mk(items_)) for c_, items_ in alts]
+            items = alts[0][1]
+            if alts[0][0] is not True:
+                st.pc.append(alts[0][0])
+            slot = fr.locals[key] = Cell({'items': list(items), 'i': 0, 'acc': acc0, 'clo': clo0, 'out': Cell()})
+        elif slot.v.pop('fresh', False):
+            pass                                  # re-entered right after the alternatives were split: no closure has run yet
+        else:
+            r = slot.v['out'].v
+            if kind == 'fold':
+                slot.v['acc'] = r
+            elif kind in ('try_for_each', 'try_fold'):
+                if isinstance(r, Adt) and r.variant in ('Err', 'None', 'Break'):
+                    del fr.locals[key]
+                    return [(True, r)]
+                if kind == 'try_fold':
+                    slot.v['acc'] = r.fields[0]
+        s = slot.v
+        if s['i'] < len(s['items']):
+            x = s['items'][s['i']]
+            s['i'] += 1
+            tgt = self.closures[clo_text]
+            self.body(tgt)
+            self.functions_entered.add(tgt)
+            selfarg = Ref(Cell(s['clo']), []) if re.search(r'_1: &', self.items[tgt][0].sig) else s['clo']
+            fr.bb, fr.idx = cur                  # come back to this call when the closure returns
+            st.frames.append(Frame(self.items[tgt][0], tgt, [selfarg] + ([s['acc'], x] if folding else [x]), (s['out'], [])))
+            return PUSHED
+        del fr.locals[key]
+        if kind == 'for_each':
+            return [(True, unit())]
+        if kind == 'fold':
+            return [(True, s['acc'])]
+        # the Try type the call returns: from the turbofish / closure signature
+        tail = callee.split('::try_', 1)[-1]
+        sig = self.items[self.closures[clo_text]][0].sig
+        rty = sig.rsplit('->', 1)[-1] if '->' in sig else tail
+        val = s['acc'] if kind == 'try_fold' else unit()
+        if 'ControlFlow' in rty:
+            return [(True, Adt('ControlFlow', 'Continue', [val]))]
+        if re.search(r'\bOption<', rty) and not re.search(r'\bResult<', rty.split('Option<', 1)[0]):
+            return [(True, some(val))]
+        return [(True, ok(val))]
+
+    def call(self, st, fr, callee, argv, destptr, cur=None):
         if not isinstance(callee, str):
             raise Unsupported('indirect call')
         name = strip_generics(callee)
+        lm = self.LOOP_CALLS.match(name)
+        if lm and cur is not None and self.closure_text(callee) in self.closures:
+            return self.loop_call(st, fr, lm.group(1), callee, argv, cur)
+        fi = self.from_call(name)
+        if fi is not None:
+            n_, b_ = fi
+            self.body(n_, b_)
+            self.functions_entered.add(n_)
+            st.frames.append(Frame(b_, n_, argv, destptr))
+            return PUSHED
         hit = self.model_cache.get(name)
         if hit is None:
             tgt = self.lookup_local(name)
@@ -1067,20 +1198,64 @@ class Engine:
         out = Cell()
         sub.frames.append(Frame(self.items[tgt][0], tgt, [selfarg] + list(args), (out, [])))
         base = len(st.pc)
-        res = []
+        nlog = len(st.world.log) if st.world is not None else 0
+        res, wrote = [], False
         for fin in self.run(sub):
             if fin.outcome[0] == 'infeasible':
                 continue
+            if fin.world is not None and any(e[0] in ('save', 'remove') for e in fin.world.log[nlog:]):
+                wrote = True
             delta = fin.pc[base:]
             cond = z3.And(*delta) if delta else True
             if fin.outcome[0] == 'return':
                 res.append((cond, fin.outcome[1]))
             else:
                 res.append((cond, PANIC('in closure ' + clo_text, fin.outcome)))
+        if wrote and len(res) > 1:
+            # the value-only protocol of this helper cannot carry per-alternative storage effects: refuse rather than lose them
+            raise Unsupported('closure that both forks and writes storage, used through a value-only library model')
+        return res
+
+    def call_closure_body(self, st, tgt, args, bdy=None):
+        """run crate function `tgt` to completion on a side state (value-only protocol, like call_closure)"""
+        bdy = self.body(tgt, bdy)
+        self.functions_entered.add(tgt)
+        sub = State()
+        sub.pc = list(st.pc)
+        sub.world = st.world
+        out = Cell()
+        sub.frames.append(Frame(bdy, tgt, list(args), (out, [])))
+        base = len(st.pc)
+        nlog = len(st.world.log) if st.world is not None else 0
+        res, wrote = [], False
+        for fin in self.run(sub):
+            if fin.outcome[0] == 'infeasible':
+                continue
+            if fin.world is not None and any(e[0] in ('save', 'remove') for e in fin.world.log[nlog:]):
+                wrote = True
+            delta = fin.pc[base:]
+            cond = z3.And(*delta) if delta else True
+            res.append((cond, fin.outcome[1]) if fin.outcome[0] == 'return' else (cond, PANIC('in ' + tgt, fin.outcome)))
+        if wrote and len(res) > 1:
+            raise Unsupported('function value that both forks and writes storage, used through a value-only library model')
         return res
 
     def closure_text(self, callee):
-        m = re.search(r'(\{closure@[^}]*\})', callee)
+        # the closure passed to THIS call is named in the method's own generic arguments, after `<Self as Trait>::`; closures inside the
+        # Self type (`Map<I, {closure}>`) belong to earlier adapters
+        depth, cut = 0, -1
+        if callee.startswith('<'):
+            for i, ch in enumerate(callee):
+                if ch == '<':
+                    depth += 1
+                elif ch == '>' and not callee.startswith('->', i - 1):
+                    depth -= 1
+                    if depth == 0:
+                        cut = i
+                        break
+        m = re.search(r'(\{closure@[^}]*\})', callee[cut + 1:]) if cut >= 0 else None
+        if m is None:
+            m = re.search(r'(\{closure@[^}]*\})', callee)
         return m.group(1) if m else None
 
     def euclid(self, st, n, d):
